@@ -1935,6 +1935,9 @@ class _ObjStyleKeys(_ObjStyleKeysMeta('_AbstractKeys', (object,), {})):
         return ret
 
 
+_DUCK_TYPES = (_AbstractIterable, _ObjStyleKeys)
+
+
 def _get_sequence_item(target, index):
     return target[int(index)]
 
@@ -2078,8 +2081,11 @@ class TargetRegistry:
                 # keep looking, a more specific match may be under a later sibling;
                 # an actual base class of the object beats a duck type (one that
                 # matches by __instancecheck__ / __subclasshook__ only)
+                # and the two built-in duck types yield to any registered type,
+                # e.g. an ABC that covers the object as a virtual subclass
                 if (default is None or issubclass(ret, default)
-                        or (ret in mro and default not in mro)):
+                        or (ret in mro and default not in mro)
+                        or (default in _DUCK_TYPES and ret not in _DUCK_TYPES)):
                     default = ret
         return default
 
